@@ -6,7 +6,8 @@
             (main flags x attachment x 0-2 sub-profiles x 0-1 hat, each with its own flags).
 Oracle: independent block scanner (engine/scan.py): complain build => every block carries `complain`;
 enforce build => none does; in both, flags minus complain (as a set) and the other header tokens
-equal those of the same block in the build with neither option.
+equal those of the same block in the build with neither option; and in that build every block of the source file has
+the source flags, or exactly the manifest's flags when a flags manifest (common, then distribution) names the file.
 """
 import itertools, json, os
 from .. import common as C, cfgx, scan, gox, refparser
@@ -67,6 +68,7 @@ def real(tier, ev, fnd):
             cache[e[1]] = scan.blocks(ex.text(e))
         return cache[e[1]]
     nblocks = 0
+    srccache = {}
     for b in bases:
         tn = trees[b]
         for mode in ('complain', 'enforce'):
@@ -80,6 +82,33 @@ def real(tier, ev, fnd):
                     continue
                 en, exx = tn['apparmor.d/' + f], tx['apparmor.d/' + f]
                 nblocks += compare(mode, '%s %s' % (cfgx.tag(b._replace(mode=mode)), f), blocks_of(en), blocks_of(exx), fnd, f[:-len('.apparmor.d')] if f.endswith('.apparmor.d') else f)
+        # the baseline itself: in the build with neither option every block of the source file carries the source flags,
+        # or -- for a file a flags manifest names (common, then per-distribution) -- exactly the manifest's flags
+        from . import c04
+        files, _, _, flagged, _ = c04.expected(b)
+        for f in fn:
+            srcp = files.get('apparmor.d/' + f)
+            if not srcp or not os.path.isfile(srcp):
+                continue
+            name = f[:-len('.apparmor.d')] if f.endswith('.apparmor.d') else f
+            key = (srcp, tuple(flagged.get(name) or ()))
+            if key not in srccache:
+                srccache[key] = {x.path: x for x in scan.blocks(open(srcp, errors='surrogateescape').read())}
+            sb = srccache[key]
+            want = flagged.get(name)
+            for blk in blocks_of(tn['apparmor.d/' + f]):
+                if blk.path not in sb:
+                    continue        # brought in by a stack directive: not a block of this source file
+                nblocks += 1
+                exp = set(want) if want else set(sb[blk.path].flags)
+                if set(blk.flags) != exp and want and '/groups/_full/' in srcp and set(blk.flags) == set(sb[blk.path].flags):
+                    # the manifest entry is dead: `setflags` runs before the full-policy task copies groups/_full over the tree
+                    fnd.report('baseline-flags file=%s block=%s cause=full-policy-profile-copied-after-setflags' % (name, blk.path),
+                               '%s %s: block %s keeps its source flags %s although the flags manifest says %s: the full-system-policy profiles are copied into the tree after the manifests were applied' % (
+                                   cfgx.tag(b), f, blk.path, sorted(blk.flags), sorted(exp)), {'config': b._asdict(), 'file': f, 'header': blk.header})
+                elif set(blk.flags) != exp:
+                    fnd.report('baseline-flags file=%s block=%s' % (name, blk.path), '%s %s: block %s has flags %s in the build with neither option; %s says %s' % (
+                        cfgx.tag(b), f, blk.path, sorted(blk.flags), 'the flags manifest' if want else 'the source', sorted(exp)), {'config': b._asdict(), 'file': f, 'header': blk.header})
         ev.sample({'config': cfgx.tag(b), 'files': len(cfgx.aa_files(tn))}, cap=4)
     ev.add(states=len(cfgs), transitions=nblocks, real_blocks_compared=nblocks, real_configurations=len(cfgs))
     # second opinion: what the reference parser itself says about the mode of every block (`Name:` / `Mode:` of its -d dump)
